@@ -10,9 +10,9 @@ package avc
 // naluSum(ns, n): bytes taken by the first n parameter sets, each with a 2-byte length field.
 //@ spec rec naluSum(ns [][]byte, n int) int = ite(n <= 0, 0, naluSum(ns, n-1) + 2 + len(ns[n-1]))
 
-// What Size() counts as trailing bytes, and what EncodeSW really writes as trailing bytes.
+// Trailing bytes (chroma format, bit depths, SPS extensions): present for every profile other than 66/77/88 unless NoTrailingInfo;
+// the same test in DecodeAVCDecConfRec, Size() (avcdecoderconfigurationrecord.go:174-181) and EncodeSW (:220-231).
 //@ spec sizeTrail(a *DecConfRec) int = ite(a.AVCProfileIndication == 66 || a.AVCProfileIndication == 77 || a.AVCProfileIndication == 88 || a.NoTrailingInfo, 0, 4)
-//@ spec encTrail(a *DecConfRec) int = ite((a.AVCProfileIndication == 100 || a.AVCProfileIndication == 110 || a.AVCProfileIndication == 122 || a.AVCProfileIndication == 144) && !a.NoTrailingInfo, 4, 0)
 
 //@ func (*DecConfRec).Size
 //@   requires a != nil
@@ -21,12 +21,22 @@ package avc
 //@   loop 1 invariant totalSize == 7 + naluSum(a.SPSnalus, idx(1))
 //@   loop 2 invariant totalSize == 7 + naluSum(a.SPSnalus, len(a.SPSnalus)) + naluSum(a.PPSnalus, idx(2))
 
-// The encoder contract states exactly what is written (no assumption on the record); it coincides with Size() iff
-// sizeTrail(a) == encTrail(a), see boxOK@AvcCBox in package mp4 (FINDING: profiles such as 244 differ).
+// The encoder contract states exactly what is written (no assumption on the record): the same expression as in the contract of Size().
 //@ func (*DecConfRec).EncodeSW
 //@   requires a != nil
 //@   ensures swOKi(sw)
-//@   ensures[C02] result == nil ==> adv(sw, 7 + naluSum(a.SPSnalus, len(a.SPSnalus)) + naluSum(a.PPSnalus, len(a.PPSnalus)) + encTrail(a))
-//@   assigns sw.(*bits.FixedSliceWriter).off, sw.(*bits.FixedSliceWriter).accError, sw.(*bits.FixedSliceWriter).n, sw.(*bits.FixedSliceWriter).v, sw.(*bits.FixedSliceWriter).buf[:]
+//@   ensures[C02] result == nil ==> adv(sw, 7 + naluSum(a.SPSnalus, len(a.SPSnalus)) + naluSum(a.PPSnalus, len(a.PPSnalus)) + sizeTrail(a))
+//@   assigns sw.(*bits.FixedSliceWriter).off, sw.(*bits.FixedSliceWriter).accError, sw.(*bits.FixedSliceWriter).n, sw.(*bits.FixedSliceWriter).v, sw.(*bits.FixedSliceWriter).buf[:], ghost(sw).tr
 //@   loop 1 invariant adv(sw, 6 + naluSum(a.SPSnalus, idx(1)))
 //@   loop 2 invariant adv(sw, 7 + naluSum(a.SPSnalus, len(a.SPSnalus)) + naluSum(a.PPSnalus, idx(2)))
+
+// io.Writer side: EncodeSW into a fresh writer of Size() bytes, then one Write.
+// ASSUMPTION (assumes): a record of 2^48 bytes or more cannot be allocated (same bound as the box wrappers in package mp4).
+//@ func (*DecConfRec).EncodeSW
+//@   ensures result == nil ==> sw.(*bits.FixedSliceWriter).accError == nil
+//@   ensures sw.(*bits.FixedSliceWriter).accError == nil ==> old(sw.(*bits.FixedSliceWriter).accError) == nil
+//@ func (*DecConfRec).Encode
+//@   requires w != nil && a != nil
+//@   assumes a.Size() <= 1<<48
+//@   ensures[C02] result == nil ==> ghost(w).wlen == old(ghost(w).wlen) + int(a.Size())
+//@   assigns ghost(w).wlen, ghost(w).wz, ghost(w).wlegal, ghost(w).wesc, ghost(w).wtight, ghost(w).pay, ghost(w).plen, ghost(w).wdata, ghost(w).tr
